@@ -684,3 +684,676 @@ Proof.
   - intros r slot s Hs. destruct (leaf_lookup_entry l k r slot s Hl Hk Hs) as (A & B & C).
     split; [apply H2; exact A|]. split; assumption.
 Qed.
+(** ** children of an interior node: replace / insert / split / remove *)
+Ltac dnat :=
+  repeat match goal with
+  | |- context [Nat.ltb ?a ?b] => destruct (Nat.ltb_spec a b); try lia
+  | |- context [Nat.leb ?a ?b] => destruct (Nat.leb_spec a b); try lia
+  | |- context [Nat.eqb ?a ?b] => destruct (Nat.eqb_spec a b); try lia
+  end.
+
+Lemma kids_nonempty lo hi keys ch : kids_ok lo hi keys ch -> flat_map bt_elems ch <> [].
+Proof.
+  intros (Hlen & _ & _ & _ & _ & Hne). destruct ch as [|c ch]; [cbn in Hlen; lia|].
+  cbn [flat_map]. specialize (Hne 0%nat ltac:(cbn; lia)). cbn [nth] in Hne.
+  destruct (bt_elems c); [contradiction|discriminate].
+Qed.
+
+Lemma kids_set lo hi keys ch i c' :
+  kids_ok lo hi keys ch -> (i < length ch)%nat ->
+  WF_bt (lo_at lo keys i) (hi_at hi keys i) c' -> bt_elems c' <> [] ->
+  kids_ok lo hi keys (set_nth i c' ch).
+Proof.
+  intros (Hlen & Hs & Hw & Hsb & Hc & Hne) Hi Hc' Hne'.
+  split; [rewrite set_nth_length; exact Hlen|]. split; [exact Hs|]. split; [exact Hw|].
+  split; [exact Hsb|]. rewrite set_nth_length. split; intros j Hj; rewrite nth_set_nth.
+  - destruct (Nat.eqb_spec j i) as [->|_]; destruct (Nat.ltb_spec i (length ch)); try lia;
+      cbn [andb]; [exact Hc'|apply Hc; exact Hj].
+  - destruct (Nat.eqb_spec j i) as [->|_]; destruct (Nat.ltb_spec i (length ch)); try lia;
+      cbn [andb]; [exact Hne'|apply Hne; exact Hj].
+Qed.
+
+Lemma lo_at_insert lo keys i s j : (i <= length keys)%nat ->
+  lo_at lo (insert_at i s keys) j =
+    if (j <=? i)%nat then lo_at lo keys j
+    else if (j =? S i)%nat then Some s else lo_at lo keys (j - 1).
+Proof.
+  intros Hi. destruct j as [|j]; [reflexivity|]. cbn [lo_at]. rewrite nth_insert_at by exact Hi.
+  replace (S j - 1)%nat with j by lia.
+  destruct (Nat.leb_spec (S j) i); destruct (Nat.ltb_spec j i); try lia; [reflexivity|].
+  destruct (Nat.eqb_spec j i); destruct (Nat.eqb_spec (S j) (S i)); try lia; [reflexivity|].
+  destruct j as [|j']; [lia|]. cbn [lo_at]. replace (S j' - 1)%nat with j' by lia. reflexivity.
+Qed.
+
+Lemma hi_at_insert hi keys i s j : (i <= length keys)%nat ->
+  hi_at hi (insert_at i s keys) j =
+    if (j <? i)%nat then hi_at hi keys j
+    else if (j =? i)%nat then Some s else hi_at hi keys (j - 1).
+Proof.
+  intros Hi. unfold hi_at. rewrite insert_at_length by exact Hi.
+  rewrite nth_insert_at by exact Hi.
+  destruct (Nat.ltb_spec j i).
+  - destruct (Nat.ltb_spec j (S (length keys))); destruct (Nat.ltb_spec j (length keys));
+      try lia. reflexivity.
+  - destruct (Nat.eqb_spec j i).
+    + destruct (Nat.ltb_spec j (S (length keys))); try lia. reflexivity.
+    + destruct (Nat.ltb_spec j (S (length keys)));
+        destruct (Nat.ltb_spec (j - 1) (length keys)); try lia; reflexivity.
+Qed.
+
+Lemma sep_bnd_at lo hi keys i sep :
+  Forall (sep_bnd lo hi) keys -> (i <= length keys)%nat ->
+  sep_bnd (lo_at lo keys i) (hi_at hi keys i) sep -> sep_bnd lo hi sep.
+Proof.
+  intros Hsb Hi [H1 H2]. rewrite Forall_forall in Hsb. split.
+  - destruct i as [|i]; cbn [lo_at] in H1; [exact H1|]. cbn in H1.
+    destruct (Hsb (nth i keys dk)) as [A _]; [apply nth_In; lia|].
+    eapply lo_lt_trans; eassumption.
+  - unfold hi_at in H2. destruct (Nat.ltb_spec i (length keys)); [|exact H2]. cbn in H2.
+    destruct (Hsb (nth i keys dk)) as [_ A]; [apply nth_In; lia|].
+    eapply hi_ok_trans; eassumption.
+Qed.
+
+Lemma kids_insert lo hi keys ch i l sep r :
+  kids_ok lo hi keys ch -> (i < length ch)%nat ->
+  WF_bt (lo_at lo keys i) (Some sep) l -> WF_bt (Some sep) (hi_at hi keys i) r ->
+  kt_wf sep = true -> sep_bnd (lo_at lo keys i) (hi_at hi keys i) sep ->
+  bt_elems l <> [] -> bt_elems r <> [] ->
+  kids_ok lo hi (insert_at i sep keys) (insert_at (S i) r (set_nth i l ch)).
+Proof.
+  intros (Hlen & Hs & Hw & Hsb & Hc & Hne) Hi Hl Hr Hwsep Hb Hnl Hnr.
+  assert (i <= length keys)%nat as Hi' by lia.
+  pose proof (sep_bnd_at lo hi keys i sep Hsb Hi' Hb) as Hb'. destruct Hb as [Hb1 Hb2].
+  assert (length (insert_at (S i) r (set_nth i l ch)) = S (length ch)) as Hlen'
+    by (rewrite insert_at_length; rewrite set_nth_length; lia).
+  split. { rewrite Hlen', insert_at_length by exact Hi'. lia. }
+  split.
+  { apply sorted_insert; [exact Hs| |].
+    - apply Forall_forall. intros t Ht. destruct (In_nth _ _ dk Ht) as (j & Hj & <-).
+      rewrite firstn_length in Hj. rewrite nth_firstn. destruct (Nat.ltb_spec j i); [|lia].
+      destruct i as [|i']; [lia|]. cbn [lo_at lo_lt] in Hb1.
+      eapply canon_le_lt_trans; [|exact Hb1]. apply sorted_nth_le; [exact Hs|lia|lia].
+    - apply Forall_forall. intros t Ht. destruct (In_nth _ _ dk Ht) as (j & Hj & <-).
+      rewrite skipn_length in Hj. rewrite nth_skipn.
+      unfold hi_at in Hb2. destruct (Nat.ltb_spec i (length keys)); [|lia]. cbn in Hb2.
+      eapply canon_lt_le_trans; [exact Hb2|]. apply sorted_nth_le; [exact Hs|lia|lia]. }
+  split; [apply Forall_insert_at; assumption|].
+  split; [apply Forall_insert_at; assumption|].
+  rewrite Hlen'. split; intros j Hj.
+  - rewrite lo_at_insert, hi_at_insert by exact Hi'.
+    rewrite nth_insert_at by (rewrite set_nth_length; lia). rewrite !nth_set_nth.
+    destruct (Nat.lt_trichotomy j i) as [C|[C|C]].
+    + dnat. cbn [andb]. apply Hc. lia.
+    + subst j. dnat. cbn [andb]. exact Hl.
+    + destruct (Nat.eq_dec j (S i)) as [->|C2].
+      * dnat. replace (S i - 1)%nat with i by lia. exact Hr.
+      * dnat. cbn [andb]. apply Hc. lia.
+  - rewrite nth_insert_at by (rewrite set_nth_length; lia). rewrite !nth_set_nth.
+    destruct (Nat.lt_trichotomy j i) as [C|[C|C]].
+    + dnat. cbn [andb]. apply Hne. lia.
+    + subst j. dnat. cbn [andb]. exact Hnl.
+    + destruct (Nat.eq_dec j (S i)) as [->|C2].
+      * dnat. exact Hnr.
+      * dnat. cbn [andb]. apply Hne. lia.
+Qed.
+
+Lemma kids_split lo hi keys ch m :
+  kids_ok lo hi keys ch -> (m < length keys)%nat ->
+  kids_ok lo (Some (nth m keys dk)) (firstn m keys) (firstn (S m) ch) /\
+  kids_ok (Some (nth m keys dk)) hi (skipn (S m) keys) (skipn (S m) ch).
+Proof.
+  intros (Hlen & Hs & Hw & Hsb & Hc & Hne) Hm. rewrite Forall_forall in Hsb. split.
+  - split; [rewrite !firstn_length; lia|]. split; [apply sorted_firstn; exact Hs|].
+    split; [apply Forall_firstn; exact Hw|]. split.
+    { apply Forall_forall. intros t Ht. destruct (In_nth _ _ dk Ht) as (j & Hj & <-).
+      rewrite firstn_length in Hj. rewrite nth_firstn. destruct (Nat.ltb_spec j m); [|lia].
+      split; [apply Hsb; apply nth_In; lia|]. cbn. apply sorted_nth_lt; [exact Hs|lia|lia]. }
+    rewrite firstn_length. split; intros j Hj; rewrite nth_firstn; dnat.
+    + replace (lo_at lo (firstn m keys) j) with (lo_at lo keys j).
+      2:{ destruct j as [|j]; [reflexivity|]. cbn [lo_at]. rewrite nth_firstn. dnat. reflexivity. }
+      replace (hi_at (Some (nth m keys dk)) (firstn m keys) j) with (hi_at hi keys j).
+      2:{ unfold hi_at. rewrite firstn_length, nth_firstn. dnat; [reflexivity|].
+          f_equal. f_equal. lia. }
+      apply Hc. lia.
+    + apply Hne. lia.
+  - split; [rewrite !skipn_length; lia|]. split; [apply sorted_skipn; exact Hs|].
+    split; [apply Forall_skipn; exact Hw|]. split.
+    { apply Forall_forall. intros t Ht. destruct (In_nth _ _ dk Ht) as (j & Hj & <-).
+      rewrite skipn_length in Hj. rewrite nth_skipn.
+      split; [|apply Hsb; apply nth_In; lia]. cbn. apply sorted_nth_lt; [exact Hs|lia|lia]. }
+    rewrite skipn_length. split; intros j Hj; rewrite nth_skipn.
+    + replace (lo_at (Some (nth m keys dk)) (skipn (S m) keys) j) with (lo_at lo keys (S m + j)).
+      2:{ destruct j as [|j]; cbn [lo_at].
+          - replace (S m + 0)%nat with (S m) by lia. reflexivity.
+          - rewrite nth_skipn. replace (S m + S j)%nat with (S (S m + j)) by lia. reflexivity. }
+      replace (hi_at hi (skipn (S m) keys) j) with (hi_at hi keys (S m + j)).
+      2:{ unfold hi_at. rewrite skipn_length, nth_skipn. dnat; reflexivity. }
+      apply Hc. lia.
+    + apply Hne. lia.
+Qed.
+
+Lemma insert_at_cons {A} i (x a : A) l : insert_at (S i) x (a :: l) = a :: insert_at i x l.
+Proof. reflexivity. Qed.
+
+Lemma firstn_insert_at_le {A} (x : A) : forall i n l,
+  (i <= n)%nat -> firstn (S n) (insert_at i x l) = insert_at i x (firstn n l).
+Proof.
+  induction i as [|i IH]; intros n l H.
+  - reflexivity.
+  - destruct n as [|n]; [lia|]. destruct l as [|a l].
+    + unfold insert_at. cbn. destruct i; reflexivity.
+    + rewrite insert_at_cons. cbn [firstn]. rewrite insert_at_cons. f_equal.
+      apply (IH n l). lia.
+Qed.
+
+Lemma skipn_insert_at_le {A} (x : A) : forall i n l,
+  (i <= n)%nat -> skipn (S n) (insert_at i x l) = skipn n l.
+Proof.
+  induction i as [|i IH]; intros n l H.
+  - reflexivity.
+  - destruct n as [|n]; [lia|]. destruct l as [|a l].
+    + unfold insert_at. cbn. destruct n; reflexivity.
+    + rewrite insert_at_cons. cbn [skipn]. apply (IH n l). lia.
+Qed.
+
+Lemma firstn_insert_at_ge {A} (x : A) : forall n i l,
+  (n <= i)%nat -> (i <= length l)%nat -> firstn n (insert_at i x l) = firstn n l.
+Proof.
+  induction n as [|n IH]; intros i l H1 H2; [reflexivity|].
+  destruct i as [|i]; [lia|]. destruct l as [|a l]; [cbn in H2; lia|].
+  rewrite insert_at_cons. cbn [firstn]. f_equal. apply IH; [lia|cbn [length] in H2; lia].
+Qed.
+
+Lemma skipn_insert_at_ge {A} (x : A) : forall n i l,
+  (n <= i)%nat -> (i <= length l)%nat -> skipn n (insert_at i x l) = insert_at (i - n) x (skipn n l).
+Proof.
+  induction n as [|n IH]; intros i l H1 H2.
+  - cbn [skipn]. rewrite Nat.sub_0_r. reflexivity.
+  - destruct i as [|i]; [lia|]. destruct l as [|a l]; [cbn in H2; lia|].
+    rewrite insert_at_cons. cbn [skipn Nat.sub]. apply IH; [lia|cbn [length] in H2; lia].
+Qed.
+
+(** ** 3. put *)
+Definition ires_ids (r : insres) : list N :=
+  match r with IOne t => bt_ids t | ISplit l _ r => bt_ids l ++ bt_ids r end.
+Definition ires_elems (r : insres) : list slot_t :=
+  match r with IOne t => bt_elems t | ISplit l _ r => bt_elems l ++ bt_elems r end.
+Definition ires_ok lo hi (r : insres) : Prop :=
+  match r with
+  | IOne t => WF_bt lo hi t
+  | ISplit l sep r =>
+    WF_bt lo (Some sep) l /\ WF_bt (Some sep) hi r /\ kt_wf sep = true /\ sep_bnd lo hi sep /\
+    bt_elems l <> [] /\ bt_elems r <> []
+  end.
+
+Lemma int_absorb_spec lo hi id ver keys ch i l sep r nid :
+  (1 <= length keys <= 15)%nat -> kids_ok lo hi keys ch -> (i < length ch)%nat ->
+  WF_bt (lo_at lo keys i) (Some sep) l -> WF_bt (Some sep) (hi_at hi keys i) r ->
+  kt_wf sep = true -> sep_bnd (lo_at lo keys i) (hi_at hi keys i) sep ->
+  bt_elems l <> [] -> bt_elems r <> [] ->
+  ires_ok lo hi (int_absorb id ver keys ch i l sep r nid) /\
+  ires_elems (int_absorb id ver keys ch i l sep r nid) =
+    flat_map bt_elems (insert_at (S i) r (set_nth i l ch)) /\
+  exists nw,
+    Permutation (ires_ids (int_absorb id ver keys ch i l sep r nid))
+                (nw ++ id :: flat_map bt_ids (insert_at (S i) r (set_nth i l ch))) /\
+    (nw = [] \/ nw = [nid]).
+Proof.
+  intros Hn Hkids Hi Hl Hr Hwsep Hb Hnl Hnr.
+  pose proof (kids_insert lo hi keys ch i l sep r Hkids Hi Hl Hr Hwsep Hb Hnl Hnr) as K.
+  destruct Hkids as (Hlen & Hs & Hw & Hsb & Hc & Hne).
+  assert (i <= length keys)%nat as Hi' by lia.
+  pose proof (sep_is_pos lo hi keys sep i Hs Hi' Hb) as Hpi.
+  assert (iins_pos keys sep 0 = i) as Hpos.
+  { eapply is_pos_unique; [|exact Hpi]. apply iins_pos_is_pos; assumption. }
+  set (keys' := insert_at i sep keys) in *.
+  set (ch1 := set_nth i l ch) in *.
+  set (ch' := insert_at (S i) r ch1) in *.
+  assert (length ch1 = length ch) as Hlen1 by apply set_nth_length.
+  assert (length keys' = S (length keys)) as Hlk' by (apply insert_at_length; exact Hi').
+  assert (length ch' = S (length ch)) as Hlc' by (unfold ch'; rewrite insert_at_length; lia).
+  unfold int_absorb. fold ch1. fold dk.
+  destruct (Nat.eqb_spec (length keys) 15) as [E15|N15].
+  - (* interior split *)
+    set (pivot := nth 7 keys dk).
+    assert (kt_wf pivot = true) as Hwp.
+    { rewrite Forall_forall in Hw. apply Hw. apply nth_In. lia. }
+    assert (sep_bnd lo hi pivot) as Hbp.
+    { rewrite Forall_forall in Hsb. apply Hsb. apply nth_In. lia. }
+    rewrite (iins_probe_site sep pivot Hwsep Hwp).
+    destruct Hb as [Hb1 Hb2].
+    destruct (canon_lt sep pivot) eqn:Ep.
+    + (* (sep, r) goes left *)
+      assert (i <= 7)%nat as Hi7.
+      { destruct (Nat.le_gt_cases i 7) as [G|G]; [exact G|exfalso].
+        destruct i as [|i0]; [lia|]. cbn [lo_at lo_lt] in Hb1.
+        assert (canon_lt (nth i0 keys dk) pivot = false) as X
+          by (apply sorted_nth_le; [exact Hs|lia|lia]).
+        pose proof (canon_lt_le_trans _ _ _ Ep X) as Y.
+        apply canon_lt_asym in Y. congruence. }
+      assert (iins_pos (firstn 7 keys) sep 0 = i) as Hposl.
+      { eapply is_pos_unique; [|apply is_pos_firstn; [exact Hpi|exact Hi7]].
+        apply iins_pos_is_pos; [apply Forall_firstn; exact Hw|exact Hwsep]. }
+      unfold int_insert. rewrite Hposl. cbv beta iota zeta.
+      rewrite <- (firstn_insert_at_le sep i 7 keys Hi7).
+      rewrite <- (firstn_insert_at_le r (S i) 8 ch1) by lia.
+      rewrite <- (skipn_insert_at_le sep i 8 keys) by lia.
+      rewrite <- (skipn_insert_at_le r (S i) 8 ch1) by lia.
+      fold keys'. fold ch'.
+      assert (pivot = nth 8 keys' dk) as Epv.
+      { unfold keys'. rewrite nth_insert_at by exact Hi'. dnat. reflexivity. }
+      destruct (kids_split lo hi keys' ch' 8 K ltac:(lia)) as [KL KR]. rewrite <- Epv in KL, KR.
+      split.
+      { cbn [ires_ok]. split.
+        { apply WF_int_iff. split; [rewrite firstn_length; lia|exact KL]. }
+        split.
+        { apply WF_int_iff. split; [rewrite skipn_length; lia|exact KR]. }
+        split; [exact Hwp|]. split; [exact Hbp|]. cbn [bt_elems].
+        split; eapply kids_nonempty; eassumption. }
+      split.
+      { cbn [ires_elems bt_elems]. rewrite <- flat_map_app, firstn_skipn. reflexivity. }
+      exists [nid]. split; [|right; reflexivity].
+      cbn [ires_ids bt_ids].
+      rewrite <- (firstn_skipn 9 ch') at 3. rewrite flat_map_app.
+      apply Permutation_sym.
+      apply (Permutation_middle (id :: flat_map bt_ids (firstn 9 ch')) (flat_map bt_ids (skipn 9 ch')) nid).
+    + (* (sep, r) goes right *)
+      assert (8 <= i)%nat as Hi8.
+      { destruct (Nat.le_gt_cases 8 i) as [G|G]; [exact G|exfalso].
+        unfold hi_at in Hb2. destruct (Nat.ltb_spec i (length keys)); [|lia]. cbn in Hb2.
+        assert (canon_lt pivot (nth i keys dk) = false) as X
+          by (apply sorted_nth_le; [exact Hs|lia|lia]).
+        pose proof (canon_lt_le_trans _ _ _ Hb2 X) as Y. congruence. }
+      assert (iins_pos (skipn 8 keys) sep 0 = i - 8)%nat as Hposr.
+      { eapply is_pos_unique; [|apply is_pos_skipn; [exact Hpi|exact Hi8]].
+        apply iins_pos_is_pos; [apply Forall_skipn; exact Hw|exact Hwsep]. }
+      unfold int_insert. rewrite Hposr. cbv beta iota zeta.
+      replace (S (i - 8)) with (S i - 8)%nat by lia.
+      rewrite <- (skipn_insert_at_ge sep 8 i keys Hi8 Hi').
+      rewrite <- (skipn_insert_at_ge r 8 (S i) ch1) by lia.
+      rewrite <- (firstn_insert_at_ge sep 7 i keys) by lia.
+      rewrite <- (firstn_insert_at_ge r 8 (S i) ch1) by lia.
+      fold keys'. fold ch'.
+      assert (pivot = nth 7 keys' dk) as Epv.
+      { unfold keys'. rewrite nth_insert_at by exact Hi'. dnat. reflexivity. }
+      destruct (kids_split lo hi keys' ch' 7 K ltac:(lia)) as [KL KR]. rewrite <- Epv in KL, KR.
+      split.
+      { cbn [ires_ok]. split.
+        { apply WF_int_iff. split; [rewrite firstn_length; lia|exact KL]. }
+        split.
+        { apply WF_int_iff. split; [rewrite skipn_length; lia|exact KR]. }
+        split; [exact Hwp|]. split; [exact Hbp|]. cbn [bt_elems].
+        split; eapply kids_nonempty; eassumption. }
+      split.
+      { cbn [ires_elems bt_elems]. rewrite <- flat_map_app, firstn_skipn. reflexivity. }
+      exists [nid]. split; [|right; reflexivity].
+      cbn [ires_ids bt_ids].
+      rewrite <- (firstn_skipn 8 ch') at 3. rewrite flat_map_app.
+      apply Permutation_sym.
+      apply (Permutation_middle (id :: flat_map bt_ids (firstn 8 ch')) (flat_map bt_ids (skipn 8 ch')) nid).
+  - unfold int_insert. rewrite Hpos. cbv beta iota zeta. fold keys'. fold ch'.
+    split; [|split].
+    + cbn [ires_ok]. apply WF_int_iff. split; [lia|exact K].
+    + reflexivity.
+    + exists []. split; [apply Permutation_refl|left; reflexivity].
+Qed.
+Lemma perm_ctx {A} (a : A) P Q X Y N0 :
+  Permutation X (N0 ++ Y) -> Permutation (a :: P ++ X ++ Q) (N0 ++ a :: P ++ Y ++ Q).
+Proof.
+  intros H.
+  apply Permutation_trans with ((a :: P) ++ N0 ++ (Y ++ Q)).
+  - cbn [app]. apply perm_skip. apply Permutation_app_head.
+    rewrite (app_assoc N0 Y Q). apply Permutation_app_tail. exact H.
+  - apply (Permutation_app_swap_app (a :: P) N0 (Y ++ Q)).
+Qed.
+
+Lemma NoDup_app_intro {A} (a b : list A) :
+  NoDup a -> NoDup b -> (forall x, In x a -> In x b -> False) -> NoDup (a ++ b).
+Proof.
+  induction a as [|x a IH]; intros Ha Hb Hd; [exact Hb|].
+  apply NoDup_cons_iff in Ha. destruct Ha as [Hx Ha]. cbn [app]. constructor.
+  - intros X. apply in_app_or in X. destruct X as [X|X]; [exact (Hx X)|].
+    apply (Hd x); [left; reflexivity|exact X].
+  - apply IH; [exact Ha|exact Hb|]. intros y Hy1 Hy2. apply (Hd y); [right; exact Hy1|exact Hy2].
+Qed.
+
+Lemma bt_ids_split id ver keys ch i :
+  (i < length ch)%nat ->
+  bt_ids (BInt id ver keys ch) =
+    id :: flat_map bt_ids (firstn i ch) ++ bt_ids (nth i ch dbt) ++ flat_map bt_ids (skipn (S i) ch).
+Proof. intros H. cbn [bt_ids]. f_equal. apply flat_map_split. exact H. Qed.
+
+Lemma bt_elems_split id ver keys ch i :
+  (i < length ch)%nat ->
+  bt_elems (BInt id ver keys ch) =
+    flat_map bt_elems (firstn i ch) ++ bt_elems (nth i ch dbt) ++ flat_map bt_elems (skipn (S i) ch).
+Proof. intros H. cbn [bt_elems]. apply flat_map_split. exact H. Qed.
+
+Lemma child_ids_incl id ver keys ch i x :
+  (i < length ch)%nat -> In x (bt_ids (nth i ch dbt)) -> In x (bt_ids (BInt id ver keys ch)).
+Proof.
+  intros Hi H. cbn [bt_ids]. right. apply (in_flat_map_nth bt_ids dbt). exists i. split; assumption.
+Qed.
+
+Lemma child_keys_incl id ver keys ch i x :
+  (i < length ch)%nat -> In x (bt_keys (nth i ch dbt)) -> In x (bt_keys (BInt id ver keys ch)).
+Proof.
+  intros Hi H. apply in_keys_in_elems in H. destruct H as (s & H & <-).
+  apply in_elems_in_keys. cbn [bt_elems]. apply (in_flat_map_nth bt_elems dbt).
+  exists i. split; assumption.
+Qed.
+
+Lemma bt_put_spec k lv fuel : forall t lo hi ctr,
+  WF_bt lo hi t -> kt_wf k = true -> in_bnd lo hi k -> ~ In k (bt_keys t) ->
+  entry_ok {| sl_key := k; sl_lv := lv |} ->
+  (bt_height t < fuel)%nat ->
+  exists res info ctr' nw,
+    bt_put fuel t k lv ctr = Some (res, info, ctr') /\
+    ires_ok lo hi res /\
+    (exists A B, bt_elems t = A ++ B /\
+                 ires_elems res = A ++ {| sl_key := k; sl_lv := lv |} :: B) /\
+    Permutation (ires_ids res) (nw ++ bt_ids t) /\ NoDup nw /\
+    (forall i, In i nw -> (ctr <= i < ctr')%N) /\ (ctr < ctr')%N /\
+    In (pi_modified info) (bt_ids t) /\
+    match pi_created info with
+    | Some c => c = ctr /\ In c nw
+    | None => nw = [] /\ exists t', res = IOne t'
+    end.
+Proof.
+  induction fuel as [|f IH]; intros t lo hi ctr Hwf Hk Hbk Hnin Hok Hh; [lia|].
+  destruct t as [l|id ver keys ch]; cbn [bt_put].
+  - (* leaf *)
+    apply WF_leaf_iff in Hwf. destruct Hwf as [Hl Hbl].
+    change (bt_keys (BLeaf l)) with (leaf_keys l) in Hnin.
+    destruct (N.eq_dec (leaf_cnk l) 15) as [E15|N15].
+    + destruct (leaf_put_split l k lv ctr Hl E15 Hk Hnin Hok) as (L & sep & R & info & E & Hpost).
+      rewrite E. pose proof (split_post_keys _ _ _ _ _ _ _ _ Hpost) as Hkeys.
+      destruct Hpost as (He & HwL & HwR & HiL & HiR & H8 & H7 & H16 & Hhd & FL & FR & Hm & Hcr).
+      exists (ISplit (BLeaf L) sep (BLeaf R)), info, (ctr + 1)%N, [ctr].
+      split; [reflexivity|].
+      assert (Forall (in_bnd lo hi) (leaf_keys L ++ leaf_keys R)) as Hb2.
+      { rewrite Hkeys. apply Forall_insert_at; assumption. }
+      apply Forall_app in Hb2. destruct Hb2 as [HbL HbR].
+      assert (In sep (leaf_keys R)) as HsepR.
+      { destruct (leaf_keys R); [discriminate|]. injection Hhd as ->. left. reflexivity. }
+      rewrite Forall_forall in HbL, HbR, FL, FR.
+      split.
+      { cbn [ires_ok]. split.
+        { apply WF_leaf_iff. split; [exact HwL|]. apply Forall_forall. intros t Ht.
+          split; [apply HbL; exact Ht|cbn; apply FL; exact Ht]. }
+        split.
+        { apply WF_leaf_iff. split; [exact HwR|]. apply Forall_forall. intros t Ht.
+          split; [cbn; apply FR; exact Ht|apply HbR; exact Ht]. }
+        split.
+        { pose proof (WF_leaf_keys_wf R HwR) as W. rewrite Forall_forall in W. apply W. exact HsepR. }
+        split.
+        { split; [|apply HbR; exact HsepR].
+          destruct (leaf_keys L) as [|t0 kl0] eqn:EL.
+          - exfalso. unfold leaf_keys in EL. apply map_eq_nil in EL. rewrite EL in H8. cbn in H8. lia.
+          - apply lo_ok_lt_trans with t0; [apply HbL; left; reflexivity|apply FL; left; reflexivity]. }
+        cbn [bt_elems]. split; intros X; rewrite X in *; cbn in *; lia. }
+      split.
+      { exists (firstn (leaf_rank l k) (leaf_entries l)), (skipn (leaf_rank l k) (leaf_entries l)).
+        split; [cbn [bt_elems]; symmetry; apply firstn_skipn|]. cbn [ires_elems bt_elems]. exact He. }
+      split.
+      { cbn [ires_ids bt_ids app]. rewrite HiL, HiR. apply perm_swap. }
+      split; [constructor; [intros []|constructor]|].
+      split; [intros i [<-|[]]; lia|]. split; [lia|].
+      split; [rewrite Hm; left; reflexivity|]. rewrite Hcr. split; [reflexivity|left; reflexivity].
+    + destruct (leaf_put_nosplit l k lv ctr Hl N15 Hk Hnin Hok) as (l' & info & E & He & Hl' & Hid & Hm & Hcr).
+      rewrite E. exists (IOne (BLeaf l')), info, (ctr + 1)%N, [].
+      split; [reflexivity|]. split.
+      { cbn [ires_ok]. apply WF_leaf_iff. split; [exact Hl'|].
+        rewrite (leaf_keys_insert _ _ _ _ He). apply Forall_insert_at; assumption. }
+      split.
+      { exists (firstn (leaf_rank l k) (leaf_entries l)), (skipn (leaf_rank l k) (leaf_entries l)).
+        split; [cbn [bt_elems]; symmetry; apply firstn_skipn|]. cbn [ires_elems bt_elems]. exact He. }
+      split; [cbn [ires_ids bt_ids app]; rewrite Hid; apply Permutation_refl|].
+      split; [constructor|]. split; [intros i []|]. split; [lia|].
+      split; [rewrite Hm; left; reflexivity|]. rewrite Hcr. split; [reflexivity|eexists; reflexivity].
+  - (* interior *)
+    pose proof Hwf as Hwf0.
+    apply WF_int_iff in Hwf. destruct Hwf as [Hn Hkids].
+    destruct (kids_route lo hi keys ch k Hkids Hk) as (Hi & Hbi & _).
+    specialize (Hbi Hbk). set (i := route keys k 0) in *.
+    pose proof Hkids as (Hlen & Hs & Hw & Hsb & Hc & Hne).
+    rewrite (nth_error_child ch i Hi).
+    set (c := nth i ch dbt) in *.
+    destruct (IH c _ _ ctr (Hc i Hi) Hk Hbi) as
+        (res & info & ctr' & nw & E & Hres & (A & B & HAB & Hel) & Hperm & Hnd & Hrange & Hctr & Hmod & Hcre).
+    { intros X. apply Hnin. eapply child_keys_incl; eassumption. }
+    { exact Hok. }
+    { pose proof (height_child id ver keys ch i Hi). fold c in H. lia. }
+    rewrite E.
+    set (P := flat_map bt_ids (firstn i ch)) in *. set (Q := flat_map bt_ids (skipn (S i) ch)) in *.
+    assert (bt_ids (BInt id ver keys ch) = id :: P ++ bt_ids c ++ Q) as Hids
+      by (apply bt_ids_split; exact Hi).
+    assert (bt_elems (BInt id ver keys ch) =
+            (flat_map bt_elems (firstn i ch) ++ A) ++ B ++ flat_map bt_elems (skipn (S i) ch)) as Hels.
+    { rewrite (bt_elems_split id ver keys ch i Hi). fold c. rewrite HAB, <- !app_assoc. reflexivity. }
+    assert (In (pi_modified info) (bt_ids (BInt id ver keys ch))) as Hmod'
+      by (eapply child_ids_incl; eassumption).
+    destruct res as [c'|l sep r].
+    + (* child absorbed the insert *)
+      exists (IOne (BInt id ver keys (set_nth i c' ch))), info, ctr', nw.
+      split; [reflexivity|]. cbn [ires_ok ires_elems ires_ids] in *.
+      assert (bt_elems c' <> []) as Hne' by (rewrite Hel; destruct A; discriminate).
+      split.
+      { apply WF_int_iff. split; [exact Hn|]. apply kids_set; assumption. }
+      split.
+      { eexists. eexists. split; [exact Hels|]. cbn [bt_elems].
+        rewrite flat_map_set_nth by exact Hi. rewrite Hel, <- !app_assoc. reflexivity. }
+      split.
+      { rewrite Hids.
+        change (bt_ids (BInt id ver keys (set_nth i c' ch)))
+          with (id :: flat_map bt_ids (set_nth i c' ch)).
+        rewrite flat_map_set_nth by exact Hi. apply perm_ctx. exact Hperm. }
+      split; [exact Hnd|]. split; [exact Hrange|]. split; [exact Hctr|]. split; [exact Hmod'|].
+      destruct (pi_created info); [exact Hcre|]. split; [apply Hcre|eexists; reflexivity].
+    + (* child split *)
+      cbn [ires_ok ires_elems ires_ids] in *.
+      destruct Hres as (Hwl & Hwr & Hwsep & Hbsep & Hnl & Hnr).
+      destruct (int_absorb_spec lo hi id ver keys ch i l sep r ctr' Hn Hkids Hi Hwl Hwr Hwsep Hbsep Hnl Hnr)
+        as (R1 & R2 & nwa & R3 & R4).
+      exists (int_absorb id ver keys ch i l sep r ctr'), info, (ctr' + 1)%N, (nwa ++ nw).
+      split; [reflexivity|]. split; [exact R1|]. split.
+      { eexists. eexists. split; [exact Hels|]. rewrite R2.
+        rewrite flat_map_insert_after_set by exact Hi. rewrite Hel, <- !app_assoc. reflexivity. }
+      split.
+      { eapply Permutation_trans; [exact R3|]. rewrite <- app_assoc. apply Permutation_app_head.
+        rewrite flat_map_insert_after_set by exact Hi. rewrite Hids. apply perm_ctx. exact Hperm. }
+      split.
+      { destruct R4 as [->| ->]; [exact Hnd|]. cbn [app]. constructor; [|exact Hnd].
+        intros X. apply Hrange in X. lia. }
+      split.
+      { intros j Hj. apply in_app_or in Hj. destruct Hj as [Hj|Hj].
+        - destruct R4 as [->| ->]; [destruct Hj|]. destruct Hj as [<-|[]]. lia.
+        - apply Hrange in Hj. lia. }
+      split; [lia|]. split; [exact Hmod'|].
+      destruct (pi_created info).
+      * destruct Hcre as [-> Hin]. split; [reflexivity|]. apply in_or_app. right. exact Hin.
+      * destruct Hcre as (_ & t' & Ht'). discriminate.
+Qed.
+
+Theorem layer_put_spec root k lv ctr :
+  WF_layer root -> kt_wf k = true -> ~ In k (bt_keys root) ->
+  entry_ok {| sl_key := k; sl_lv := lv |} ->
+  (forall i, In i (bt_ids root) -> (i < ctr)%N) ->
+  exists root' info ctr',
+    layer_put root k lv ctr = Some (root', info, ctr') /\
+    WF_layer root' /\ sorted_keys (bt_keys root') /\
+    (exists A B, bt_elems root = A ++ B /\
+                 bt_elems root' = A ++ {| sl_key := k; sl_lv := lv |} :: B) /\
+    Permutation (bt_elems root') ({| sl_key := k; sl_lv := lv |} :: bt_elems root) /\
+    (ctr <= ctr')%N /\
+    (forall i, In i (bt_ids root') -> (i < ctr')%N) /\
+    (forall i, In i (bt_ids root) -> In i (bt_ids root')) /\
+    (forall i, In i (bt_ids root') -> In i (bt_ids root) \/ (ctr <= i < ctr')%N) /\
+    In (pi_modified info) (bt_ids root) /\
+    match pi_created info with
+    | Some c => c = ctr /\ In c (bt_ids root') /\ ~ In c (bt_ids root)
+    | None => True
+    end.
+Proof.
+  intros [Hwf Hnd] Hk Hnin Hok Hctr.
+  destruct (bt_put_spec k lv (S (bt_height root)) root None None ctr Hwf Hk) as
+      (res & info & ctr' & nw & E & Hres & (A & B & HAB & Hel) & Hperm & Hndn & Hrange & Hc & Hmod & Hcre);
+    [split; exact I|exact Hnin|exact Hok|lia|].
+  unfold layer_put. rewrite E.
+  assert (exists root' ctr2 nw2,
+            match res with
+            | IOne t => Some (t, info, ctr')
+            | ISplit l sep r => Some (BInt ctr' v_new_interior_parent [sep] [l; r], info, (ctr' + 1)%N)
+            end = Some (root', info, ctr2) /\
+            WF_bt None None root' /\ bt_elems root' = ires_elems res /\
+            Permutation (bt_ids root') (nw2 ++ bt_ids root) /\ NoDup nw2 /\
+            (forall i, In i nw2 -> (ctr <= i < ctr2)%N) /\ (ctr < ctr2)%N /\
+            (forall i, In i nw -> In i nw2)) as (root' & ctr2 & nw2 & E2 & Hwf' & Hel' & Hp' & Hnd2 & Hr2 & Hc2 & Hsub).
+  { destruct res as [t|l sep r]; cbn [ires_ok ires_elems ires_ids] in *.
+    - exists t, ctr', nw. repeat split; try assumption; try apply Hrange; auto.
+    - destruct Hres as (Hwl & Hwr & Hwsep & Hbsep & Hnl & Hnr).
+      exists (BInt ctr' v_new_interior_parent [sep] [l; r]), (ctr' + 1)%N, (ctr' :: nw).
+      split; [reflexivity|]. split.
+      { apply WF_int_iff. split; [cbn; lia|]. split; [reflexivity|].
+        split; [constructor; constructor|]. split; [constructor; [exact Hwsep|constructor]|].
+        split; [constructor; [exact Hbsep|constructor]|].
+        split; intros [|[|j]] Hj; cbn in Hj; try lia; cbn; assumption. }
+      split; [cbn; rewrite app_nil_r; reflexivity|]. split.
+      { cbn [bt_ids flat_map app]. rewrite app_nil_r. apply perm_skip. exact Hperm. }
+      split; [constructor; [intros X; apply Hrange in X; lia|exact Hndn]|].
+      split.
+      { intros j [<-|Hj]; [lia|]. apply Hrange in Hj. lia. }
+      split; [lia|]. intros j Hj. right. exact Hj. }
+  exists root', info, ctr2. split; [exact E2|].
+  assert (forall i, In i (bt_ids root') -> In i nw2 \/ In i (bt_ids root)) as Hin'.
+  { intros j Hj. apply in_app_or. eapply Permutation_in; [exact Hp'|exact Hj]. }
+  assert (Permutation (bt_elems root') ({| sl_key := k; sl_lv := lv |} :: bt_elems root)) as HP.
+  { rewrite Hel', Hel, HAB. apply Permutation_sym. apply Permutation_middle. }
+  split.
+  { split; [exact Hwf'|]. eapply Permutation_NoDup; [apply Permutation_sym; exact Hp'|].
+    apply NoDup_app_intro; [exact Hnd2|exact Hnd|].
+    intros j Hj1 Hj2. apply Hr2 in Hj1. apply Hctr in Hj2. lia. }
+  split; [apply (WF_bt_sorted None None); exact Hwf'|].
+  split; [exists A, B; split; [exact HAB|rewrite Hel'; exact Hel]|].
+  split; [exact HP|]. split; [lia|]. split.
+  { intros j Hj. destruct (Hin' j Hj) as [X|X]; [apply Hr2 in X; lia|apply Hctr in X; lia]. }
+  split.
+  { intros j Hj. eapply Permutation_in; [apply Permutation_sym; exact Hp'|].
+    apply in_or_app. right. exact Hj. }
+  split.
+  { intros j Hj. destruct (Hin' j Hj) as [X|X]; [right; apply Hr2; exact X|left; exact X]. }
+  split; [exact Hmod|].
+  destruct (pi_created info); [|exact I]. destruct Hcre as [-> Hin]. split; [reflexivity|]. split.
+  - eapply Permutation_in; [apply Permutation_sym; exact Hp'|]. apply in_or_app. left. apply Hsub. exact Hin.
+  - intros X. apply Hctr in X. lia.
+Qed.
+(** ** 4. update of the leaf reached by a key *)
+Lemma bt_update_leaf_spec k fuel : forall t lo hi,
+  WF_bt lo hi t -> kt_wf k = true -> (bt_height t < fuel)%nat ->
+  exists l, bt_find_leaf fuel t k = Some l /\
+    forall f, WF_leaf (f l) -> lf_id (f l) = lf_id l -> leaf_keys (f l) = leaf_keys l ->
+      WF_bt lo hi (bt_update_leaf fuel t k f) /\
+      bt_ids (bt_update_leaf fuel t k f) = bt_ids t /\
+      bt_id (bt_update_leaf fuel t k f) = bt_id t /\
+      exists A B, bt_elems t = A ++ leaf_entries l ++ B /\
+                  bt_elems (bt_update_leaf fuel t k f) = A ++ leaf_entries (f l) ++ B.
+Proof.
+  induction fuel as [|fu IH]; intros t lo hi Hwf Hk Hh; [lia|].
+  destruct t as [l|id ver keys ch]; cbn [bt_find_leaf bt_update_leaf].
+  - apply WF_leaf_iff in Hwf. destruct Hwf as [Hl Hb]. exists l. split; [reflexivity|].
+    intros f Hfl Hfid Hfk. split.
+    { apply WF_leaf_iff. split; [exact Hfl|]. rewrite Hfk. exact Hb. }
+    split; [cbn [bt_ids]; rewrite Hfid; reflexivity|]. split; [exact Hfid|].
+    exists [], []. cbn [bt_elems app]. rewrite !app_nil_r. split; reflexivity.
+  - apply WF_int_iff in Hwf. destruct Hwf as [Hn Hkids].
+    destruct (kids_route lo hi keys ch k Hkids Hk) as (Hi & _ & _).
+    set (i := route keys k 0) in *.
+    pose proof Hkids as (Hlen & Hs & Hw & Hsb & Hc & Hne).
+    rewrite (nth_error_child ch i Hi).
+    destruct (IH (nth i ch dbt) _ _ (Hc i Hi) Hk) as (l & E & Hupd).
+    { pose proof (height_child id ver keys ch i Hi). lia. }
+    exists l. split; [exact E|]. intros f Hfl Hfid Hfk.
+    destruct (Hupd f Hfl Hfid Hfk) as (U1 & U2 & _ & A & B & U3 & U4).
+    set (c' := bt_update_leaf fu (nth i ch dbt) k f) in *.
+    assert (bt_elems c' <> []) as Hne'.
+    { intros X. apply (Hne i Hi). rewrite U4 in X. rewrite U3.
+      apply app_eq_nil in X. destruct X as [-> X]. apply app_eq_nil in X. destruct X as [X ->].
+      assert (leaf_entries l = []) as ->; [|reflexivity].
+      apply (f_equal (map sl_key)) in X. fold (leaf_keys (f l)) in X. rewrite Hfk in X.
+      unfold leaf_keys in X. apply map_eq_nil in X. exact X. }
+    split.
+    { apply WF_int_iff. split; [exact Hn|]. apply kids_set; assumption. }
+    split.
+    { cbn [bt_ids]. f_equal. rewrite flat_map_set_nth by exact Hi. rewrite U2.
+      symmetry. apply flat_map_split. exact Hi. }
+    split; [reflexivity|].
+    exists (flat_map bt_elems (firstn i ch) ++ A), (B ++ flat_map bt_elems (skipn (S i) ch)).
+    split.
+    + rewrite (bt_elems_split id ver keys ch i Hi), U3, <- !app_assoc. reflexivity.
+    + cbn [bt_elems]. rewrite flat_map_set_nth by exact Hi. rewrite U4, <- !app_assoc. reflexivity.
+Qed.
+
+Lemma map_replace_key (k : ktuple) (x s : slot_t) A B :
+  NoDup (map sl_key (A ++ s :: B)) -> sl_key s = k ->
+  map (fun e => if kt_eq (sl_key e) k then x else e) (A ++ s :: B) = A ++ x :: B.
+Proof.
+  intros Hnd Hs. subst k.
+  assert (forall e, In e A \/ In e B -> (if kt_eq (sl_key e) (sl_key s) then x else e) = e) as Hid.
+  { intros e He. destruct (kt_eq (sl_key e) (sl_key s)) eqn:E; [|reflexivity]. exfalso.
+    apply (proj1 (kt_eq_canon _ _)) in E.
+    rewrite map_app in Hnd. cbn [map] in Hnd. apply NoDup_remove_2 in Hnd. apply Hnd.
+    rewrite <- E. apply in_or_app. destruct He as [He|He]; [left|right]; apply in_map; exact He. }
+  rewrite map_app. cbn [map].
+  assert (kt_eq (sl_key s) (sl_key s) = true) as -> by (apply (proj1 (kt_eq_canon _ _)); reflexivity).
+  f_equal; [|f_equal].
+  - rewrite <- (map_id A) at 2. apply map_ext_in. intros e He. apply Hid. left. exact He.
+  - rewrite <- (map_id B) at 2. apply map_ext_in. intros e He. apply Hid. right. exact He.
+Qed.
+
+(** overwrite of the value of an existing key, as done by [put_walk] *)
+Theorem layer_update_spec root k l rank slot s v :
+  WF_layer root -> kt_wf k = true ->
+  find_leaf root k = Some l -> leaf_lookup l k = Some (rank, slot, s) -> (kl k <= 8)%N ->
+  let x := {| sl_key := sl_key s; sl_lv := LValue v |} in
+  let root' := update_leaf root k (fun l0 =>
+                 leaf_with l0 (lf_ver l0) (lf_perm l0)
+                           (set_nth (N.to_nat slot) x (lf_slots l0))) in
+  sl_key s = k /\ In s (bt_elems root) /\
+  WF_layer root' /\ bt_ids root' = bt_ids root /\ bt_id root' = bt_id root /\
+  (exists A B, bt_elems root = A ++ s :: B /\ bt_elems root' = A ++ x :: B) /\
+  bt_elems root' = map (fun e => if kt_eq (sl_key e) k then x else e) (bt_elems root) /\
+  bt_keys root' = bt_keys root.
+Proof.
+  intros [Hwf Hnd] Hk Hfind Hlook Hkl x root'.
+  destruct (bt_update_leaf_spec k (S (bt_height root)) root None None Hwf Hk ltac:(lia))
+    as (l' & E & Hupd).
+  unfold find_leaf in Hfind. rewrite Hfind in E. injection E as <-.
+  destruct (bt_find_leaf_spec (S (bt_height root)) root None None k Hwf Hk ltac:(lia))
+    as (l' & E & Hl & _ & _ & Hsub).
+  rewrite Hfind in E. injection E as <-.
+  destruct (leaf_lookup_some l k rank slot s Hl Hk Hlook) as [Hr Hsk].
+  pose proof (leaf_ranked_entries l rank slot s Hr) as Hre.
+  assert (entry_ok x) as Hokx.
+  { split; cbn [sl_key sl_lv x]; rewrite Hsk; assumption. }
+  destruct (leaf_overwrite_spec l (lf_ver l) rank slot s x Hl Hr eq_refl Hokx) as (O1 & O2 & O3).
+  set (f := fun l0 => leaf_with l0 (lf_ver l0) (lf_perm l0) (set_nth (N.to_nat slot) x (lf_slots l0))) in *.
+  destruct (Hupd f O3 eq_refl O2) as (U1 & U2 & U3 & A & B & U4 & U5).
+  change (bt_update_leaf (S (bt_height root)) root k f) with root' in *.
+  assert (rank < length (leaf_entries l))%nat as Hrl by (apply nth_error_Some; congruence).
+  assert (leaf_entries l = firstn rank (leaf_entries l) ++ s :: skipn (S rank) (leaf_entries l)) as HE.
+  { rewrite (split_at_nth empty_slot _ rank Hrl) at 1. f_equal. f_equal.
+    apply nth_error_nth. exact Hre. }
+  assert (exists A' B', bt_elems root = A' ++ s :: B' /\ bt_elems root' = A' ++ x :: B')
+    as (A' & B' & H1 & H2).
+  { exists (A ++ firstn rank (leaf_entries l)), (skipn (S rank) (leaf_entries l) ++ B). split.
+    - rewrite U4. rewrite HE at 1. rewrite <- !app_assoc. reflexivity.
+    - rewrite U5. change (leaf_entries (f l)) with
+        (leaf_entries (leaf_with l (lf_ver l) (lf_perm l) (set_nth (N.to_nat slot) x (lf_slots l)))).
+      rewrite O1, set_nth_split by exact Hrl. rewrite <- !app_assoc. reflexivity. }
+  split; [exact Hsk|]. split; [apply Hsub; eapply nth_error_In; exact Hre|].
+  split; [split; [exact U1|rewrite U2; exact Hnd]|]. split; [exact U2|]. split; [exact U3|].
+  split; [exists A', B'; split; assumption|]. split.
+  - rewrite H2, H1. symmetry. apply map_replace_key; [|exact Hsk].
+    rewrite <- H1. apply (WF_bt_keys_NoDup None None root Hwf).
+  - unfold bt_keys. rewrite H2, H1, !map_app. reflexivity.
+Qed.
